@@ -22,8 +22,9 @@ Trace == ndJsonDeserialize(TraceFile)
 ONE == 1        \* the interner gives 0.0 the symbol 0 and 1.0 the symbol 1
 ZERO == 0
 
-VARIABLES l, reg, nInn, nNode, dig, meaning, roles, maxInn, maxNode
-vars == <<l, reg, nInn, nNode, dig, meaning, roles, maxInn, maxNode>>
+VARIABLES l, reg, nInn, nNode, dig, meaning, roles, maxInn, maxNode,
+          sLink, sNode   \* the innovations of the current generation as the SPECIFICATION derives them from the observed steps
+vars == <<l, reg, nInn, nNode, dig, meaning, roles, maxInn, maxNode, sLink, sNode>>
 
 F(cond, tag) == IF cond THEN {} ELSE {tag}
 PoolFn(e) == LET ids == { e.pool[i][1] : i \in DOMAIN e.pool }
@@ -59,7 +60,7 @@ NodeMatch(r, old) == FirstMatch(r, LAMBDA q : q.k = "N" /\ q.src = old.src /\ q.
 DoReset(e) ==
     /\ LET fails == F(WellFormed(e.g) /\ e.gok, "C01:start genome not well-formed or not expressible") IN
        IF fails = {} THEN TRUE ELSE PrintT(ToJson([l |-> l, ev |-> "reset", fails |-> fails]))
-    /\ reg' = <<>> /\ nInn' = e.c[1] /\ nNode' = e.c[2] /\ dig' = PoolFn(e)
+    /\ reg' = <<>> /\ nInn' = e.c[1] /\ nNode' = e.c[2] /\ dig' = PoolFn(e) /\ sLink' = {} /\ sNode' = {}
     /\ meaning' = [n \in Inns(e.g) |-> Key(GeneOf(e.g, n))]
     /\ roles' = [n \in NodeIds(e.g) |-> RoleOf(e.g, n)]
     /\ maxInn' = MaxOf({e.c[1]} \cup Inns(e.g)) /\ maxNode' = MaxOf({e.c[2]} \cup NodeIds(e.g))
@@ -76,7 +77,7 @@ DoDup(e) ==
        IN IF fails = {} THEN TRUE ELSE PrintT(ToJson([l |-> l, ev |-> "dup", fails |-> fails]))
     /\ dig' = PoolFn(e)
     /\ IF e.err THEN UNCHANGED <<meaning, roles, maxInn, maxNode>> ELSE Learn({e.child})
-    /\ UNCHANGED <<reg, nInn, nNode>>
+    /\ UNCHANGED <<reg, nInn, nNode, sLink, sNode>>
 
 (* -------------------------------------------------------------------- mut *)
 Structural(op) == op \in {"addnode", "addlink", "connect"}
@@ -90,21 +91,37 @@ C05OK(e) ==
       [] e.op = "toggle" -> ToggleStatement(e.pre, e.post)
       [] e.op = "reenable" -> ReEnableStatement(e.pre, e.post)
       [] OTHER -> ParametricFrame(e.pre, e.post)
-(* C03: numbers issued now exceed everything held before, unless they repeat an innovation recorded this generation *)
+(* C03: numbers issued now exceed everything held before, unless they repeat an innovation of this generation.       *)
+(* sLink / sNode are the innovations of the current generation derived by the specification from the steps it has     *)
+(* seen (NOT the library's own record, which is only compared under `conf`).                                          *)
+SInns == { r.inn : r \in sLink } \cup { r.inn : r \in sNode } \cup { r.inn2 : r \in sNode }
+SNodes == { r.node : r \in sNode }
 FreshOK(e) ==
-    /\ \A n \in NewInns(e) : n \in RegInns(reg) \/ n > maxInn
-    /\ \A n \in NewNodes(e) : n \in RegNodes(reg) \/ n > maxNode
-(* C03: an innovation identical to one recorded in this generation gets the recorded numbers (sequential use) *)
+    /\ \A n \in NewInns(e) : n \in SInns \/ n > maxInn
+    /\ \A n \in NewNodes(e) : n \in SNodes \/ n > maxNode
+(* C03: an innovation identical to one that arose earlier in this generation gets the same numbers (sequential use) *)
 SplitGenes(e) == { i \in DOMAIN e.pre.genes : e.pre.genes[i].en /\ ~e.post.genes[CHOOSE k \in DOMAIN e.post.genes : e.post.genes[k].inn = e.pre.genes[i].inn].en }
 ReuseOK(e) ==
     CASE e.op = "addnode" /\ e.ok /\ Inns(e.pre) \subseteq Inns(e.post) ->
-            \A i \in SplitGenes(e) :
-               LET m == NodeMatch(reg, e.pre.genes[i]) IN
-               m # 0 => (NewNodes(e) = {reg[m].node} /\ NewInns(e) = {reg[m].inn, reg[m].inn2})
+            \A i \in SplitGenes(e) : \A r \in sNode :
+               (r.src = e.pre.genes[i].src /\ r.dst = e.pre.genes[i].dst /\ r.old = e.pre.genes[i].inn)
+                  => (NewNodes(e) = {r.node} /\ NewInns(e) = {r.inn, r.inn2})
       [] e.op \in {"addlink", "connect"} /\ e.ok ->
-            \A n \in NewInns(e) :
-               LET x == GeneOf(e.post, n)  m == LinkMatch(reg, x) IN m # 0 => n = reg[m].inn
+            \A n \in NewInns(e) : \A r \in sLink : Key(GeneOf(e.post, n)) = <<r.src, r.dst, r.rec>> => n = r.inn
       [] OTHER -> TRUE
+(* the innovations this step adds to the generation's record *)
+DeriveLinks(e) ==
+    IF e.op \in {"addlink", "connect"} /\ e.ok
+    THEN { [src |-> GeneOf(e.post, n).src, dst |-> GeneOf(e.post, n).dst, rec |-> GeneOf(e.post, n).rec, inn |-> n] : n \in NewInns(e) }
+    ELSE {}
+DeriveNodes(e) ==
+    IF e.op = "addnode" /\ e.ok /\ Inns(e.pre) \subseteq Inns(e.post) /\ Cardinality(NewNodes(e)) = 1 /\ Cardinality(NewInns(e)) = 2
+    THEN LET n == CHOOSE x \in NewNodes(e) : TRUE
+             a == CHOOSE x \in NewInns(e) : GeneOf(e.post, x).dst = n \/ \A y \in NewInns(e) : GeneOf(e.post, y).dst # n
+             b == CHOOSE x \in NewInns(e) : x # a
+         IN { [src |-> e.pre.genes[i].src, dst |-> e.pre.genes[i].dst, old |-> e.pre.genes[i].inn, inn |-> a, inn2 |-> b, node |-> n]
+                : i \in SplitGenes(e) }
+    ELSE {}
 (* conformance: the step is the operator of Genome.tla for some choice *)
 SameButAct(a, b) == a.genes = b.genes /\ a.traits = b.traits
                     /\ [i \in DOMAIN a.nodes |-> [a.nodes[i] EXCEPT !.act = 0]] = [i \in DOMAIN b.nodes |-> [b.nodes[i] EXCEPT !.act = 0]]
@@ -138,12 +155,13 @@ DoMut(e) ==
             \cup F(MeaningOK(e.post) /\ RolesOK(e.post), "C03:number with two meanings")
             \cup F(FreshOK(e), "C03:issued number not larger than all held before")
             \cup F(ReuseOK(e), "C03:identical innovation of this generation got different numbers")
-            \cup F(RegistryFunctional(e.reg1), "C03:registry holds two records of one innovation")
+            \cup F(RegistryFunctional(e.reg1), "conf:registry holds two records of one innovation")
             \cup F(OthersUnchanged(e, {e.gid}), "C06:an uninvolved genome changed")
             \cup F(e.reg0 = reg /\ e.c0 = <<nInn, nNode>>, "conf:registry / counters differ from the specification's")
             \cup F(ConfOK(e), "conf:step not explained by the operator as specified")
        IN IF fails = {} THEN TRUE ELSE PrintT(ToJson([l |-> l, ev |-> "mut", op |-> e.op, fails |-> fails]))
     /\ reg' = e.reg1 /\ nInn' = e.c1[1] /\ nNode' = e.c1[2] /\ dig' = PoolFn(e)
+    /\ sLink' = sLink \cup DeriveLinks(e) /\ sNode' = sNode \cup DeriveNodes(e)
     /\ Learn({e.post})
 
 (* ------------------------------------------------------------------- mate *)
@@ -171,15 +189,15 @@ DoMate(e) ==
        IN IF fails = {} THEN TRUE ELSE PrintT(ToJson([l |-> l, ev |-> "mate", op |-> e.op, fails |-> fails]))
     /\ dig' = PoolFn(e)
     /\ IF e.err THEN UNCHANGED <<meaning, roles, maxInn, maxNode>> ELSE Learn({e.child})
-    /\ UNCHANGED <<reg, nInn, nNode>>
+    /\ UNCHANGED <<reg, nInn, nNode, sLink, sNode>>
 
 (* -------------------------------------------------------------------- gen *)
 DoGen(e) ==
     /\ LET fails == F(e.reglen = 0, "C03:innovation record not forgotten at the end of the generation")
        IN IF fails = {} THEN TRUE ELSE PrintT(ToJson([l |-> l, ev |-> "gen", fails |-> fails]))
-    /\ reg' = <<>> /\ UNCHANGED <<nInn, nNode, dig, meaning, roles, maxInn, maxNode>>
+    /\ reg' = <<>> /\ sLink' = {} /\ sNode' = {} /\ UNCHANGED <<nInn, nNode, dig, meaning, roles, maxInn, maxNode>>
 
-Init == /\ l = 1 /\ reg = <<>> /\ nInn = 0 /\ nNode = 0 /\ dig = <<>> /\ meaning = <<>> /\ roles = <<>> /\ maxInn = 0 /\ maxNode = 0
+Init == /\ l = 1 /\ sLink = {} /\ sNode = {} /\ reg = <<>> /\ nInn = 0 /\ nNode = 0 /\ dig = <<>> /\ meaning = <<>> /\ roles = <<>> /\ maxInn = 0 /\ maxNode = 0
 Next == /\ l <= Len(Trace)
         /\ l' = l + 1
         /\ LET e == Trace[l] IN
